@@ -862,6 +862,15 @@ func (e *Extractor) Fragments() ([]text.TextFragment, []Warning, error) {
 		return nil, nil, err
 	}
 
+	// Detect headers/footers if needed (requires ALL pages for pattern detection)
+	var headerFooterResult *layout.HeaderFooterResult
+	if e.options.excludeHeaders || e.options.excludeFooters {
+		allPages, err := e.collectAllPages()
+		if err == nil && len(allPages) > 0 {
+			headerFooterResult = e.detectHeaderFooter(allPages)
+		}
+	}
+
 	var allFragments []text.TextFragment
 	for i, pageNum := range pageIndices {
 		page, err := e.reader.GetPage(pageNum)
@@ -877,6 +886,12 @@ func (e *Extractor) Fragments() ([]text.TextFragment, []Warning, error) {
 		// Check for messy PDF traits on the first page processed
 		if i == 0 {
 			e.checkMessyPDF(fragments)
+		}
+
+		// Filter headers/footers
+		if headerFooterResult != nil {
+			height, _ := page.Height()
+			fragments = headerFooterResult.FilterFragments(pageNum, fragments, height)
 		}
 
 		allFragments = append(allFragments, fragments...)
